@@ -163,3 +163,41 @@ func ByteOffsetToUTF16(s string, byteOffset int) int {
 func RuneCount(s string) int {
 	return utf8.RuneCountInString(s)
 }
+
+// RuneOffsetToUTF16 returns the length in UTF-16 code units of the first runeOffset runes
+// of s (of all of s when it has fewer runes).
+func RuneOffsetToUTF16(s string, runeOffset int) int {
+	utf16Count := 0
+	runeCount := 0
+	for _, r := range s {
+		if runeCount >= runeOffset {
+			break
+		}
+		runeCount++
+		if r >= 0x10000 {
+			utf16Count += 2
+		} else {
+			utf16Count++
+		}
+	}
+	return utf16Count
+}
+
+// UTF16OffsetToRuneOffset returns the number of runes of s that begin before the given
+// UTF-16 offset (all of them when s is shorter).
+func UTF16OffsetToRuneOffset(s string, utf16Offset int) int {
+	utf16Count := 0
+	runeCount := 0
+	for _, r := range s {
+		if utf16Count >= utf16Offset {
+			break
+		}
+		runeCount++
+		if r >= 0x10000 {
+			utf16Count += 2
+		} else {
+			utf16Count++
+		}
+	}
+	return runeCount
+}
